@@ -29,6 +29,15 @@ CORPUS = [
       expect=[('C05.A', 'in-place-update-of-self._rates')]),
     T('c05-benign-out-of-place-mu', "            self._rates *= self._mu.tensor\n\n    def rates(self) -> torch.Tensor:\n        if self.needs_update:\n            self.update_rates(", "            self._rates = self._rates * self._mu.tensor\n\n    def rates(self) -> torch.Tensor:\n        if self.needs_update:\n            self.update_rates(", benign=True),
     T('c05-benign-mean-form', "        self._rates = rates / (rates * self._probabilities).sum(-1, keepdim=True)", "        self._rates = rates / (self._probabilities * rates).sum(-1, keepdim=True)", benign=True),
+    T('c05-invariant-rate-clamped', "                1.0 / (1.0 - invariant),\n", "                1.0 / torch.clamp(1.0 - invariant, min=1.0e-6),\n", expect=[('C05.I', 'InvariantSiteModel::mean-rate-is-one::piece1')]),
+    T('c05-invariant-prob-clamped', "        self._probabilities = torch.cat((invariant, 1.0 - invariant), -1)", "        self._probabilities = torch.cat((invariant.clamp(max=0.99), 1.0 - invariant), -1)",
+      expect=[('C05.I', 'InvariantSiteModel::mean-rate-is-one::piece1')]),
+    Mut('c05-benign-invariant-local-name', SM, '', "                1.0 / (1.0 - invariant),\n", "                1.0 / variable,\n", benign=True, mode='text',
+        more=[dict(scope='', old="        self._probabilities = torch.cat((invariant, 1.0 - invariant), -1)\n", new="        self._probabilities = torch.cat((invariant, 1.0 - invariant), -1)\n        variable = 1.0 - invariant\n", nth=0, mode='text')]),
+    T('c05-constant-probability-half', "        self._probability = torch.ones_like(self._rate.tensor)", "        self._probability = torch.ones_like(self._rate.tensor) / 2.0", expect=[('C05.C', 'ConstantSiteModel::single-category')]),
+    T('c05-constant-rate-ignores-mu', "        self._rate = mu if mu is not None else Parameter(None, torch.ones((1,)))", "        self._rate = Parameter(None, torch.ones((1,))) if mu is not None else mu",
+      expect=[('C05.C', 'ConstantSiteModel::single-category')]),
+    T('c05-benign-constant-test-flipped', "        self._rate = mu if mu is not None else Parameter(None, torch.ones((1,)))", "        self._rate = Parameter(None, torch.ones((1,))) if mu is None else mu", benign=True),
 ]
 for m in CORPUS:
     if m.id == 'c05-invariant-rate-unscaled':
